@@ -56,11 +56,11 @@ PROPS = {
         'the theorem C03_faithful over all trees and all rows is a growth item; the check is a search device plus the correspondence',
         ['PostgreSQL reading of the SQL text is the PgModel one; string order is byte order on both sides']),
     'C04': P(
-        ['C04_placeholders_match_parameters', 'C04_parameters_are_the_values', 'C04_render_param_returns'],
+        ['C04_placeholders_match_parameters', 'C04_parameters_are_the_values', 'C04_sql_text_independent_of_values', 'C04_render_param_returns'],
         [('corpus', 0), ('rand', 4000), ('subst', 1500), ('quote', 1000), ('sem', 2500)],
         [('corpus', 0), ('rand', 60000), ('subst', 20000), ('quote', 20000), ('sem', 40000)],
         PARSE + SQL,
-        'partial: clause (a) placeholder count = parameter count proved for every tree of parser shape outside K13; clause (b) parameters = the values in left-to-right order with their Go kinds proved for every tree of parser shape; RenderParam total. Clauses (c) equivalence after substitution and (d) SQL text independent of values are decided by C04_check on the implementation observations (probe rows, substitution pairs) and by the correspondence.',
+        'partial: clause (a) placeholder count = parameter count proved for every tree of parser shape outside K13; clause (b) parameters = the values in left-to-right order with their Go kinds proved for every tree of parser shape; clause (d) same-kind trees render the same parameterized text proved for every tree of any shape; RenderParam total. Clause (c) equivalence after substitution is decided by C04_check on the implementation observations (probe rows) and by the correspondence.',
         'random structured queries, same-kind value substitutions (pairs), quoted/escaped values; non-trivial = both renderers succeeded',
         'C04_check on (inline, parameterized) observation pairs and on substitution pairs.',
         ['oracle fact: ParseFloat rejects a text starting with a quote']),
